@@ -56,7 +56,7 @@ def docs(ctx, n):
                 elif ctx.rng.random() < 0.15:
                     lines[i] = ctx.rng.choice(["> ", "- ", "  ", "1. "]) + lines[i]
                 if ctx.rng.random() < 0.2:
-                    lines[i] += ctx.rng.choice([" ", "  ", "\t", " \t", "\\", "   "])
+                    lines[i] += ctx.rng.choice([" ", "  ", "\t", " \t", "\\", "   ", "  \\", "   \\", " \\", "\\  ", "\t\\", "  \\\\", "\\\\"])
             out.append("\n".join(lines) + ctx.rng.choice(["\n", "", "\n\n"]))
         else:
             out.append(gen.md_any(ctx.rng, 7))
